@@ -1,51 +1,62 @@
 (* Crypto/Sha512.v — executable SHA-512 over [list byte] (FIPS 180-4).  Same structure as Sha256.v, but
-   the 64-bit words are bit lists (Crypto/BitWord.v, most significant bit first) so that the extracted
+   the 64-bit words are lists of 16 four-bit digits (Crypto/NibWord.v, table-driven) so that the extracted
    code is fast enough for HMAC-SHA512 chains and PBKDF2 with 2048 iterations.  The Z-word version in
    the style of Sha256.v is kept as [sha512_z] in Crypto/Sha512Z.v.  Transcription validated against
    hashlib (and against sha512_z) in the CRYPTO selftest. *)
 From Coq Require Import ZArith List Bool.
 From Coq.Strings Require Import Byte.
-From Verif Require Import Lib.Bytes Crypto.Sha256 Crypto.BitWord Crypto.Sha512Consts.
+From Verif Require Import Lib.Bytes Crypto.Sha256 Crypto.NibWord Crypto.Sha512Consts.
 Import ListNotations.
 Open Scope Z_scope.
 
-Definition rotr64 (n : nat) (x : bword) : bword := bw_rotr 64 n x.
-Definition shr64 (n : nat) (x : bword) : bword := bw_shr 64 n x.
-Definition add64 : bword -> bword -> bword := bw_add.
+Definition add64 : nword -> nword -> nword := nw_add.
 
-Definition bsig0_64 x := bw_xor3 (rotr64 28 x) (rotr64 34 x) (rotr64 39 x).
-Definition bsig1_64 x := bw_xor3 (rotr64 14 x) (rotr64 18 x) (rotr64 41 x).
-Definition ssig0_64 x := bw_xor3 (rotr64 1 x) (rotr64 8 x) (shr64 7 x).
-Definition ssig1_64 x := bw_xor3 (rotr64 19 x) (rotr64 61 x) (shr64 6 x).
+(* FIPS 180-4 (4.10)-(4.13): rotation / shift amounts, precomputed as window recipes *)
+Definition r512_28 := Eval vm_compute in mk_rotr 16 28.
+Definition r512_34 := Eval vm_compute in mk_rotr 16 34.
+Definition r512_39 := Eval vm_compute in mk_rotr 16 39.
+Definition r512_14 := Eval vm_compute in mk_rotr 16 14.
+Definition r512_18 := Eval vm_compute in mk_rotr 16 18.
+Definition r512_41 := Eval vm_compute in mk_rotr 16 41.
+Definition r512_1 := Eval vm_compute in mk_rotr 16 1.
+Definition r512_8 := Eval vm_compute in mk_rotr 16 8.
+Definition s512_7 := Eval vm_compute in mk_shr 16 7.
+Definition r512_19 := Eval vm_compute in mk_rotr 16 19.
+Definition r512_61 := Eval vm_compute in mk_rotr 16 61.
+Definition s512_6 := Eval vm_compute in mk_shr 16 6.
 
+Definition bsig0_64 x := nw_sigma 16 r512_28 r512_34 r512_39 x.
+Definition bsig1_64 x := nw_sigma 16 r512_14 r512_18 r512_41 x.
+Definition ssig0_64 x := nw_sigma 16 r512_1 r512_8 s512_7 x.
+Definition ssig1_64 x := nw_sigma 16 r512_19 r512_61 s512_6 x.
 
-Definition K512w : list bword := map (bw_of_Z 64) K512.
-Definition H512w : list bword := map (bw_of_Z 64) H512_init.
-Definition zero64 : bword := repeat false 64.
+Definition K512w : list nword := map (nw_of_Z 16) K512.
+Definition H512w : list nword := map (nw_of_Z 16) H512_init.
+Definition zero64 : nword := repeat N0 16.
 
 (* big-endian 64-bit words of a block *)
-Fixpoint words_be64 (k : nat) (bs : bytes) : list bword :=
+Fixpoint words_be64 (k : nat) (bs : bytes) : list nword :=
   match k with
   | O => []
-  | S k' => bw_of_bytes (firstn 8 bs) :: words_be64 k' (skipn 8 bs)
+  | S k' => nw_of_bytes (firstn 8 bs) :: words_be64 k' (skipn 8 bs)
   end.
 
-Definition sched_next64 (w : list bword) : bword :=
+Definition sched_next64 (w : list nword) : nword :=
   (* w = [W(t-1); W(t-2); ...; W(t-16)] *)
   add64 (add64 (ssig1_64 (nth 1 w zero64)) (nth 6 w zero64))
         (add64 (ssig0_64 (nth 14 w zero64)) (nth 15 w zero64)).
 
-Definition round512 (st : list bword) (k w : bword) : list bword :=
+Definition round512 (st : list nword) (k w : nword) : list nword :=
   match st with
   | [a; b; c; d; e; f; g; h] =>
-      let t1 := add64 (add64 (add64 h (bsig1_64 e)) (add64 (bw_ch e f g) k)) w in
-      let t2 := add64 (bsig0_64 a) (bw_maj a b c) in
+      let t1 := add64 (add64 (add64 h (bsig1_64 e)) (add64 (nw_ch e f g) k)) w in
+      let t2 := add64 (bsig0_64 a) (nw_maj a b c) in
       [add64 t1 t2; a; b; c; add64 d t1; e; f; g]
   | _ => st
   end.
 
-Fixpoint rounds512 (ks : list bword) (t : nat) (blockw : list bword) (win : list bword) (st : list bword)
-  : list bword :=
+Fixpoint rounds512 (ks : list nword) (t : nat) (blockw : list nword) (win : list nword) (st : list nword)
+  : list nword :=
   match ks with
   | [] => st
   | k :: ks' =>
@@ -53,7 +64,7 @@ Fixpoint rounds512 (ks : list bword) (t : nat) (blockw : list bword) (win : list
       rounds512 ks' (S t) blockw (w :: firstn 15 win) (round512 st k w)
   end.
 
-Definition compress512 (st : list bword) (block : bytes) : list bword :=
+Definition compress512 (st : list nword) (block : bytes) : list nword :=
   let bw := words_be64 16 block in
   let st' := rounds512 K512w 0 bw [] st in
   map (fun p => add64 (fst p) (snd p)) (combine st st').
@@ -62,7 +73,7 @@ Definition pad512 (msg : bytes) : bytes :=
   let n := length msg in
   msg ++ [x80] ++ repeat x00 (pad_len n 128 16) ++ be_bytes 16 (8 * Z.of_nat n).
 
-Fixpoint blocks512 (fuel : nat) (st : list bword) (bs : bytes) : list bword :=
+Fixpoint blocks512 (fuel : nat) (st : list nword) (bs : bytes) : list nword :=
   match fuel with
   | O => st
   | S f =>
@@ -75,4 +86,4 @@ Fixpoint blocks512 (fuel : nat) (st : list bword) (bs : bytes) : list bword :=
 Definition sha512 (msg : bytes) : bytes :=
   let p := pad512 msg in
   let st := blocks512 (S (length p / 128)) H512w p in
-  flat_map bw_to_bytes st.
+  flat_map (fun w => be_bytes 8 (nw_to_Z w)) st.
